@@ -32,6 +32,7 @@ type Config struct {
 	BadManifests    bool     // malformed / wrong-shape / bad-descriptor manifests
 	Retype          bool     // same manifest bytes pushed under another opaque media type
 	Attach          bool     // several live writer handles on one upload session
+	DeepChain       bool     // a quarter of the universes are one chain of nested indexes, seven manifests deep
 	NoEmptyBlobType bool     // never push a blob without a media type
 	BigLens         []int    // extra blob lengths (e.g. around chunk sizes)
 	MaxSmall        int      // uniform small blob lengths 0..MaxSmall
@@ -131,9 +132,25 @@ func Gen(cfg Config) func(t *rapid.T) Script {
 			s.U.Blobs = append(s.U.Blobs, c)
 		}
 		nm := 6
+		chain := cfg.DeepChain && rapid.IntRange(0, 3).Draw(t, "deepChain") == 0
+		if chain {
+			nm = 7
+		}
 		for i := 0; i < nm; i++ {
 			var m ops.ManSpec
 			m.Salt = i
+			if chain {
+				// one deep reference chain: an image and six indexes, each naming the one before
+				m.Config = -1
+				if i == 0 {
+					m.Kind, m.Config = "image", rapid.IntRange(0, nb-1).Draw(t, "config")
+					m.Layers = []int{rapid.IntRange(0, nb-1).Draw(t, "layer")}
+				} else {
+					m.Kind, m.Children = "index", []int{i - 1}
+				}
+				s.U.Manifests = append(s.U.Manifests, m)
+				continue
+			}
 			kinds := []string{"image", "image", "index", "index", "opaque"}
 			if cfg.BadManifests {
 				kinds = append(kinds, "badjson", "wrongshape", "opaquebin", "trailing")
@@ -234,7 +251,7 @@ func Gen(cfg Config) func(t *rapid.T) Script {
 				}
 			}
 			for _, c := range m.Children {
-				if c < mi && sh.mans[[2]int{r, c}] != 1 && depth < 3 {
+				if c < mi && sh.mans[[2]int{r, c}] != 1 && depth < 8 {
 					prereq(r, c, depth+1)
 					s.Ops = append(s.Ops, ops.Op{K: "pushManifest", R: r, M: c, T: -1})
 					sh.mans[[2]int{r, c}] = 1
